@@ -28,7 +28,7 @@ RULE = ("programs = adversarial field sequences over native widths 1/2/4/8, arra
         "layout of some struct needs padding; distinct = hash of the YAML text + options")
 ASSUMPTIONS = ["the natural-layout oracle (vf/gen/defs.py struct_layout) is independent of the parser",
                "with auto_pad off a definition that needs padding and is also too large may be rejected with either error"]
-REQUIRE = {"structs_checked": 1500, "check_alignment_postconditions": 1500, "rejections_checked": 100, "gcc_structs_measured": 50,
+REQUIRE = {"auto_pad_off_through_file_option": 20, "structs_checked": 1500, "check_alignment_postconditions": 1500, "rejections_checked": 100, "gcc_structs_measured": 50,
            "size_limit_cases": 20, "accepted_with_auto_pad_off": 50}
 CASE_TIMEOUT = 200
 WIDTH_TYPES = {1: ["char", "int8", "uint8", "byte", "unsigned char"], 2: ["int16", "uint16", "short", "unsigned short"],
@@ -381,6 +381,21 @@ def run_case(case, tier):
             elif err not in exp:
                 V.append({"mech": f"wrong_rejection:{err}", "detail": f"expected one of {sorted(exp)}"})
             res["nontrivial"] = True
+        if case["kind"] != "closure" and not case["auto_pad"] and (case["n"] % 40 == 1 or (err == "AlignmentError" and case["n"] % 6 == 1)):
+            # the option written in the file itself (compiler_options: AUTO_PAD: false) and the command line as the entry
+            # point: the verdict must be the one the Parser object gave with auto_pad=False
+            import subprocess
+            froot = work / "with_option.yaml"
+            froot.write_text("compiler_options:\n  AUTO_PAD: false\n" + ("  IMPORT_COREDEFS: false\n" if not core else "") + root.read_text())
+            (work / "cliout").mkdir(exist_ok=True)
+            r = subprocess.run(["/venv/bin/python", "-m", "pyrtma.compile", "-i", str(froot), "-o", str(work / "cliout"), "--py"], stdin=subprocess.DEVNULL,
+                               capture_output=True, text=True, timeout=120)
+            C["auto_pad_off_through_file_option"] = C.get("auto_pad_off_through_file_option", 0) + 1
+            accepted = r.returncode == 0
+            if accepted != (err is None):
+                V.append({"mech": "file_option_auto_pad_off_ignored" if accepted else "file_option_changes_verdict",
+                          "detail": f"Parser(auto_pad=False) said {err or 'accepted'}; python -m pyrtma.compile on the same definitions with "
+                                    f"compiler_options AUTO_PAD: false exited {r.returncode}: {(r.stdout + r.stderr)[-200:]}"})
         res["sets"]["option"] = [[case["auto_pad"], core]]
         if case["n"] % 97 == 0:
             res["sample"] = {"case": {k: case[k] for k in case if k != "n"}, "defs": describe(D)[:600], "outcome": err or "accepted"}
